@@ -248,19 +248,22 @@ pub fn install_panic_recorder() {
         let loc = info.location().map(|l| format!("{}:{}", l.file().rsplit("/repo/").next().unwrap_or(l.file()), l.line())).unwrap_or_default();
         // the innermost function of the crate on the stack: a key that survives line shifts
         let bt = std::backtrace::Backtrace::force_capture().to_string();
-        let mut func = String::new();
-        let lines: Vec<&str> = bt.lines().collect();
-        for i in 0..lines.len() {
-            let l = lines[i].trim();
+        // the three innermost functions of the crate on the stack (generic arguments below the first level dropped)
+        let clean = |func: &str| -> String {
+            let keep = 1;
+            let mut f2 = String::new(); let mut depth = 0;
+            for ch in func.chars() { match ch { '<' => { depth += 1; if depth <= keep { f2.push(ch); } } '>' => { if depth <= keep && depth > 0 { f2.push(ch); } if depth > 0 { depth -= 1; } } _ => if depth <= keep { f2.push(ch); } } }
+            let mut f2 = f2.replace("::{{closure}}", "");
+            for k in 0..6 { f2 = f2.replace(&format!("::{{closure#{}}}", k), ""); }
+            f2
+        };
+        let mut path: Vec<String> = vec![];
+        for l in bt.lines() {
+            let l = l.trim();
             if let Some(pos) = l.find(": ") { let sym = &l[pos + 2..];
-                if sym.contains("qrlew::") && !sym.starts_with("qvh::") { func = sym.to_string(); break; } }
+                if sym.contains("qrlew::") && !sym.starts_with("qvh::") { let c = clean(sym); if path.last() != Some(&c) { path.push(c); } if path.len() >= 3 { break; } } }
         }
-        // generic parameters and closure markers are dropped
-        // `<T as Trait>::f` keeps its first level, deeper generic arguments are dropped
-        let keep = 1;
-        let mut f2 = String::new(); let mut depth = 0;
-        for ch in func.chars() { match ch { '<' => { depth += 1; if depth <= keep { f2.push(ch); } } '>' => { if depth <= keep && depth > 0 { f2.push(ch); } if depth > 0 { depth -= 1; } } _ => if depth <= keep { f2.push(ch); } } }
-        let f2 = f2.replace("::{{closure}}", "").replace("::{closure#0}", "").replace("::{closure#1}", "").replace("::{closure#2}", "");
+        let f2 = path.join(" < ");
         if let Ok(mut g) = LAST_PANIC.lock() { *g = format!("{} @ {} @ {}", msg.chars().take(160).collect::<String>(), loc, f2); }
     }));
 }
